@@ -344,9 +344,9 @@ func cmpFactsAt(v ssa.Value, b *ssa.BasicBlock) []struct {
 		op := bin.Op
 		var k int64
 		var okK bool
-		if bin.X == v {
+		if bin.X == v || pureSame(bin.X, v) {
 			k, okK = constInt(bin.Y)
-		} else if bin.Y == v {
+		} else if bin.Y == v || pureSame(bin.Y, v) {
 			k, okK = constInt(bin.X)
 			op = flip[op]
 		}
@@ -1065,4 +1065,20 @@ func (c *Ctx) checkEnvDepthInvariant(r *Report) {
 	if n == 0 {
 		r.Undecided("C07.R8: no Environment literal with a depth found")
 	}
+}
+
+// pureSame: two len()/cap() calls (possibly converted) of the same immutable value.
+func pureSame(a, b ssa.Value) bool {
+	ca, ok1 := stripConvert(a).(*ssa.Call)
+	cb, ok2 := stripConvert(b).(*ssa.Call)
+	if !ok1 || !ok2 {
+		return false
+	}
+	ba, ok1 := ca.Common().Value.(*ssa.Builtin)
+	bb, ok2 := cb.Common().Value.(*ssa.Builtin)
+	if !ok1 || !ok2 || ba.Name() != bb.Name() || (ba.Name() != "len" && ba.Name() != "cap") {
+		return false
+	}
+	// same operand, and the operand is a string or a value not reassigned (SSA value identity)
+	return ca.Common().Args[0] == cb.Common().Args[0]
 }
